@@ -20,4 +20,4 @@ def run(tier: str, seed: int):
         serial = list(F.fam_limits(1, 4, batch=1))
         rule = 'n<=4 x types {None,1,2,3} x faults, batch<=3; n=5 x {1,2}'
         e3c = list(F.fam_e3(F.fam_limits(1, 3, tnames=('TA', 'TB', 'TC'), faults=True), workers=(1, 2, 3, None), cpu_count=3)) + list(F.fam_e3(F.fam_limits(4, 4, tnames=('TA', 'TB')), workers=(2, 3), cpu_count=3, liveness=False))
-    return run_e2_property('C04', tier, seed, cfgs, serial_configs=serial, e3_configs=e3c, real_cases=list(F.fam_real(F.real_bases('limits') + F.real_bases('plain'), workers=(1, 2))), rule=rule, assumptions=ASSUME)
+    return run_e2_property('C04', tier, seed, cfgs, serial_configs=serial, e3_configs=e3c, barrier_cases=__import__('verif_lt.e4b', fromlist=['cases']).cases(tier), real_cases=list(F.fam_real(F.real_bases('limits') + F.real_bases('plain'), workers=(1, 2))), rule=rule, assumptions=ASSUME)
